@@ -20,7 +20,7 @@ from . import common as C
 from . import tracecheck as T
 from . import persist as PS
 
-SINGLE = ("PUSH", "POP", "LEN", "DEL")
+SINGLE = ("PUSH", "POP", "LEN", "DEL", "PUSHX")
 
 WITNESSES = [
     # id, vals, cmds, schedule
@@ -34,6 +34,9 @@ WITNESSES = [
     ("w-stable-push-push", "1=1", "PUSH:1,PUSH:1", "0,1,0,1,0,1,0,1"),
     ("w-stable-push-len", "1=1", "PUSH:1,LEN:1", "0,1,0,1,0,1,0,1"),
     ("w-stable-pop-pop", "1=3", "POP:1,POP:1", "0,1,0,1,0,1,0,1"),
+    ("w-stable-pushx-pushx", "1=1", "PUSHX:1,PUSHX:1", "0,1,0,1,0,1,0,1"),
+    ("w-stable-pushx-push-len", "1=2", "PUSHX:1,PUSH:1,PUSHX:1", "0,1,2,0,0,0,1,1,1,2,2,2"),
+    ("w-pushx-missing", "-", "PUSHX:1,PUSH:1", "0,1,0,1,0,1"),
 ]
 
 
@@ -51,7 +54,7 @@ def klass(cmds, vals, waiting=None):
         if len([w for w in ws if w[0] == "MOVE"]) >= 2:
             return "lock-order"
         return "other"
-    stable = all(c.split(":")[0] in ("PUSH", "LEN") and c.split(":")[1] in present for c in cl)
+    stable = all(c.split(":")[0] in ("PUSH", "PUSHX", "LEN") and c.split(":")[1] in present for c in cl)
     return "stable-keys" if stable else "unstable-keys"
 
 
